@@ -15,6 +15,7 @@ const (
 	verifTickQueued
 	verifTickWritten
 	verifTickDispatch
+	verifTickHandlerGone
 )
 
 func verifTick(which int)                    {}
